@@ -1164,6 +1164,7 @@ def check_state_limit_writers(ctx, rep, pid):
             sidx = base_of(act[1][1]) if okv else None
             okv = okv and sidx is not None and sidx[0] == 'idx' and is_const(sidx[2], 0)
         rep.ob(pid + '.R1', fn, 'initial-limit-from-state-0', okv, 'value %s' % shape(v))
+    rep.count_floor(pid + '.R1', 'stores of the initial state_limit in Framework::new', len(field_stores(fa, 'state_limit', 'MachineRuntime')), 1)
 
 
 def count_between(fa, a, b, marks):
